@@ -85,10 +85,10 @@ func (t *Tracker) name(f *tengo.CompiledFunction) string {
 	return "anon"
 }
 
-// Key renders one VM; finished VMs (their thread ended) collapse to "vm-done".
+// Key renders one VM; finished VMs (their thread ended) collapse to "vm-done" plus their abort flag.
 func (t *Tracker) Key(info *VM) string {
 	if info.Thread >= 0 && t.S.ThreadDone(info.Thread) {
-		return "vm-done"
+		return fmt.Sprintf("vm-done ab=%d", info.V.VerifAborting()) // the flag matters once VM objects are recycled
 	}
 	v := info.V
 	fn, ip, sp, bp, fi := v.VerifState()
